@@ -375,9 +375,28 @@ func symUnop(op token.Token, x sv) value {
 	panic(engineError{fmt.Sprintf("symbolic unop %s", op)})
 }
 
+// sfloat is a float64 known to be exactly the non-negative integer T < 2^53
+// (the only symbolic floating-point values the engine supports: DESIGN.md C20,
+// "checked exactness rule").
+type sfloat struct{ T *Term }
+
+const two53 = uint64(1) << 53
+
 // symConv converts symbolic scalar x to basic kind dst.
 func symConv(dst types.BasicKind, x sv) value {
-	if dst == types.Float32 || dst == types.Float64 || dst == types.Complex64 || dst == types.Complex128 {
+	if dst == types.Float64 {
+		tt := x.T.tt
+		w, _ := kindInfo(x.K)
+		t := tt.Resize(x.T, 64, false)
+		if w == 64 || true {
+			// exact iff 0 <= x < 2^53 (as unsigned 64-bit: covers negatives too)
+			if !tt.i.proves(tt.App("bvult", 0, t, tt.Const(64, two53))) {
+				panic(engineError{"not encodable: symbolic integer -> float64 not provably exact (needs |x| < 2^53)"})
+			}
+		}
+		return sfloat{t}
+	}
+	if dst == types.Float32 || dst == types.Complex64 || dst == types.Complex128 {
 		panic(engineError{"not encodable: symbolic integer converted to floating point"})
 	}
 	if dst == types.String {
@@ -386,4 +405,21 @@ func symConv(dst types.BasicKind, x sv) value {
 	_, signed := kindInfo(x.K)
 	w, _ := kindInfo(dst)
 	return norm(x.T.tt.Resize(x.T, w, signed), dst)
+}
+
+// sfloatMul multiplies an exact-integer symbolic float by a concrete float.
+func sfloatMul(a sfloat, c float64) value {
+	tt := a.T.tt
+	if c != float64(uint64(c)) || c < 0 || c >= float64(two53) {
+		panic(engineError{fmt.Sprintf("not encodable: symbolic float times non-integer constant %v", c)})
+	}
+	k := uint64(c)
+	if k == 0 {
+		return float64(0)
+	}
+	lim := two53 / k
+	if !tt.i.proves(tt.App("bvult", 0, a.T, tt.Const(64, lim))) {
+		panic(engineError{"not encodable: symbolic float product not provably exact (< 2^53)"})
+	}
+	return sfloat{tt.App("bvmul", 64, a.T, tt.Const(64, k))}
 }
